@@ -520,3 +520,4 @@ def replay(case):
             f'{"Accept: application/json" if case["json"] else "HTML"}: {v[1]}')
 
 MANIFEST['text'] += ' JSON is asked for in seven Accept spellings; non-JSON clients send seven other Accept values.'
+MANIFEST['text'] += ' Error kinds 404log / 500log (a before_request hook reads request.url and repr(request) first) and 500hook (a failing route hook on a wildcard prefix) joined in the tenth wave.'
